@@ -112,16 +112,22 @@ def edges(ctx, out):
     fine); (b) the far future: very slow first tempi push absolute times beyond what a double holds to the microsecond — the stored
     time of every tempo event still equals both public queries at its own tick, and the ticks around it stay ordered"""
     rng = ctx.sub("edges")
-    for _ in range(ctx.n(60, 6000)):
-        res, tempo = C01.rand_map(rng, rng.choice([1, 2, 4]))
-        if rng.random() < 0.6:
+    # always: maps whose first tempo line is not at tick 0, followed by others (refused is fine; accepted must be ordered and consistent)
+    fixed = [(192, [(5, 120000), (100, 60000)]), (192, [(1, 120000), (2, 90000), (400, 150000)]), (480, [(480, 120000), (960, 60000)]),
+             (100, [(7, 60000), (57, 120000), (58, 30000)]), (192, [(191, 200000), (192, 100000)]), (3, [(2, 120000), (9, 7)])]
+    for k in range(ctx.n(60, 6000) + len(fixed)):
+        if k < len(fixed):
+            res, tempo = fixed[k]
+        else:
+            res, tempo = C01.rand_map(rng, rng.choice([1, 2, 4]))
+        if k >= len(fixed) and rng.random() < 0.6:
             # far future: 0.001–0.01 BPM for 10^8–10^10 ticks, then ordinary and very fast tempi
             n0 = rng.choice([1, 2, 7, 10])
             t1 = min(rng.randint(10**8, 10**10), 4 * 10**13 * n0 * res // 60000)  # stay inside timedelta's range (10^9 days)
             tempo = [(0, n0)] + [(t1 + k * rng.randint(1, 2000), n) for k, n in
                                                          enumerate([120000, rng.choice([156250000, 90000, 999999999]), rng.randint(1, 10**6)][: rng.randint(1, 3)])]
             tempo = sorted({t: n for t, n in tempo}.items())
-        if rng.random() < 0.15 and len(tempo) >= 2 and tempo[-1][0] < 10**8:
+        if k >= len(fixed) and rng.random() < 0.15 and len(tempo) >= 2 and tempo[-1][0] < 10**8:
             # a map whose first tempo is not at tick 0 may be refused; if it is accepted, time still follows ticks
             shift = rng.randint(1, max(1, tempo[1][0] - 1)) if tempo[1][0] > 1 else 1
             tempo = [(shift, tempo[0][1])] + [(t + shift if t + shift > shift else t + shift + 1, n) for t, n in tempo[1:]]
